@@ -96,25 +96,39 @@ def handleMeta (j : Json) : Except String Json := do
     | some _ => let (h', l) := alloc h0 (.axesList (List.range nAx)); (h', some l)
   let (h2, np) := alloc h1 (.propsDict (node.map fun p => (p.identifier, p)))
   let (h3, ep) := alloc h2 (.propsDict (edge.map fun p => (p.identifier, p)))
-  let (h4, m) := alloc h3 (.geffMeta axesRef np ep true)
+  let dirMd := match j.getObjVal? "directed_md" with
+    | .ok (.bool b) => b
+    | _ => true
+  let isDir := match j.getObjVal? "is_directed" with
+    | .ok (.bool b) => b
+    | _ => true
+  let newAxes : Option (List AxisSpec) := match j.getObjVal? "new_axes" with
+    | .ok (.arr a) => some (a.toList.map fun x => match x with
+        | .arr q => ((q[0]!.getStr?.toOption.getD ""), (optStr q[1]!).toOption.getD none,
+                     (optStr q[2]!).toOption.getD none)
+        | _ => ("", none, none))
+    | _ => none
+  let (h4, m) := alloc h3 (.geffMeta axesRef np ep dirMd)
   let (h', res) : Heap × Option Addr := match fn with
     | "add_node" => let r := addOrUpdatePropsMetadata h4 m nodeMd true; (r.1, some r.2)
     | "add_edge" => let r := addOrUpdatePropsMetadata h4 m edgeMd false; (r.1, some r.2)
     | "compute" => computeAndAddAxisMinMax h4 m data
+    | "create_or_update" => let r := createOrUpdateMetadata h4 (some m) isDir newAxes; (r.1, some r.2)
+    | "update_axes" => let r := updateMetadataAxes h4 m (newAxes.getD []); (r.1, some r.2)
     | "write_arrays_full" => writeArraysFull h4 m nodeMd edgeMd have_ emptyG data
     | _ => writeArraysMeta h4 m nodeMd edgeMd have_ data
   let callerKept := decide (h'.take h4.length = h4)
   match res with
   | none => return Json.mkObj [("raised", Json.bool true), ("caller_kept", Json.bool callerKept)]
   | some r =>
-    let (np', ep') : Addr × Addr := match h'[r]? with
-      | some (.geffMeta _ a b _) => (a, b)
-      | _ => (0, 0)
+    let (np', ep', dir') : Addr × Addr × Bool := match h'[r]? with
+      | some (.geffMeta _ a b d) => (a, b, d)
+      | _ => (0, 0, true)
     let oldAx := (axesAddrs h4 m).getD []
     let newAx := (axesAddrs h' r).getD []
     let sameAxes := (newAx.zip oldAx).map fun (a, b) => Json.bool (a == b)
     return Json.mkObj [("raised", Json.bool false), ("caller_kept", Json.bool callerKept),
-      ("meta_same", Json.bool (r == m)), ("node_dict_same", Json.bool (np' == np)),
+      ("meta_same", Json.bool (r == m)), ("directed", Json.bool dir'), ("node_dict_same", Json.bool (np' == np)),
       ("edge_dict_same", Json.bool (ep' == ep)), ("axes_same", Json.arr sameAxes.toArray),
       ("axes", axesJson h' r), ("node", dictJson h' np'), ("edge", dictJson h' ep')]
 
